@@ -377,13 +377,25 @@ def run_branch(case, ctx):
         ctx.check(np.array_equal(br.xyzr(), snapshot), f"{label}/input-unchanged", "")
 
     n = case["n"]
-    out = ctx.lib("BranchLinearResampler", lambda: BranchLinearResampler(n)(br))
+    rl = BranchLinearResampler(n)
+    out = ctx.lib("BranchLinearResampler", lambda: rl(br))
     check(out, [n], "linear")
+    # the same resampler object goes on to another branch: the result already handed out is not touched by that
+    from swcgeom.core import Branch
+
+    kept = np.asarray(out.xyzr()).copy()
+    other = Branch.from_xyzr((xyzr[::-1] + np.float32(1.5)).astype(np.float32))
+    ctx.lib("BranchLinearResampler", lambda: rl(other))
+    ctx.check(np.array_equal(np.asarray(out.xyzr()), kept), "linear/earlier-result-unchanged-by-a-later-call", "")
     d = max(case["f"] * (L / max(len(P) - 1, 1) if L > 0 else 1.0), 1e-3)
     want = (max(int(math.ceil(L / d)), 1) if L > 0 else 0) + 1
     near = L > 0 and abs(L / d - round(L / d)) < 1e-6 * max(1.0, L / d)
-    out = ctx.lib("BranchIsometricResampler", lambda: BranchIsometricResampler(d)(br))
+    ri = BranchIsometricResampler(d)
+    out = ctx.lib("BranchIsometricResampler", lambda: ri(br))
     check(out, [want] if not near else [want, want - 1, want + 1], "isometric", d)
+    kept = np.asarray(out.xyzr()).copy()
+    ctx.lib("BranchIsometricResampler", lambda: ri(other))
+    ctx.check(np.array_equal(np.asarray(out.xyzr()), kept), "isometric/earlier-result-unchanged-by-a-later-call", "")
     if not near and L > 0:
         out = ctx.lib("BranchIsometricResampler[adjust_last_gap=False]", lambda: BranchIsometricResampler(d, adjust_last_gap=False)(br))
         check(out, [want], "isometric-last-step-shorter", d, adjust=False)
